@@ -60,8 +60,9 @@ MID = {"n": 2, "leaf": LEAF, "leaves": [LEAF, {"n": 4}]}
 DATA = {"n": 1, "nn": 4, "mid": MID, "mids": [MID, {"n": 5, "leaves": []}]}
 
 
-def request(i, doc, v, s, fault, opsel):
+def request(i, doc, v, s, fault, opsel, ng=2):
     q, gates = POOL[doc]
+    gates = gates[-ng:]
     faults = {}
     if fault:
         faults[gates[-1]] = fault
@@ -108,11 +109,11 @@ TRIPLES = [(0, 0, 3), (1, 1, 1), (4, 0, 1)]
 
 
 FAULTS = [(0, 0), (1, 0), (2, 1), (0, 2), (3, 0), (3, 3)]
-SH15 = [{"docs": list(p), "f": list(f)} for p in PAIRS for f in FAULTS] + [{"docs": list(t), "f": list(f)} for t in TRIPLES for f in FAULTS[:3]]
-QUICK15 = [i for i, s in enumerate(SH15) if (s["f"] == [0, 0] and len(s["docs"]) == 2 and s["docs"] in ([0, 0], [1, 1], [2, 2], [4, 4], [0, 3])) or (s["docs"] == [0, 3] and s["f"] in ([2, 1], [3, 3])) or (s["docs"] == [1, 3] and s["f"] == [1, 0])]
+SH15 = [{"docs": list(p), "f": list(f), "ng": ng} for ng in (1, 2) for p in PAIRS for f in FAULTS] + [{"docs": list(t), "f": list(f), "ng": 1} for t in TRIPLES for f in FAULTS[:3]]
+QUICK15 = [i for i, s in enumerate(SH15) if s["ng"] == 1 and len(s["docs"]) == 2 and ((s["f"] == [0, 0] and s["docs"] in ([0, 0], [1, 1], [2, 2], [4, 4], [0, 3])) or (s["docs"] == [0, 3] and s["f"] in ([2, 1], [3, 3])) or (s["docs"] == [1, 3] and s["f"] == [1, 0]))]
 
 
-@obligation(tier="quick", timeout=300, shards=SH15, quick_shards=QUICK15,
+@obligation(tier="quick", timeout=300, thorough_timeout=1500, shards=SH15, quick_shards=QUICK15,
             samples=[{"c0": 0, "c1": 0, "c2": 0, "c3": 0, "c4": 0, "c5": 0, "v0": 1, "v1": 2, "s0": True, "s1": False, "f0": 0, "f1": 0},
                      {"c0": 1, "c1": 2, "c2": 0, "c3": 1, "c4": 0, "c5": 0, "v0": 2**31, "v1": -1, "s0": False, "s1": True, "f0": 2, "f1": 1}],
             symbolic=["c0..c5: completion order of the pending resolvers across all requests", "v0, v1: int variables per request (unbounded)", "s0, s1: Boolean variables per request"],
@@ -128,7 +129,7 @@ def c15_concurrent(c0: int, c1: int, c2: int, c3: int, c4: int, c5: int, v0: int
     if finding_open("F7") and is_f7([f0, f1]):
         return True
     vs = [v0, v1, 7]; ss = [pickb(s0), pickb(s1), True]; fs = [f0, f1, 0]
-    reqs = [request(i, d, vs[i], ss[i], fs[i], ss[i]) for i, d in enumerate(docs)]
+    reqs = [request(i, d, vs[i], ss[i], fs[i], ss[i], shard().get("ng", 2)) for i, d in enumerate(docs)]
     cs = [c0, c1, c2, c3, c4, c5]
     k = [0]
     MODULE_ERR[0] = MyErr("module-level", extensions={"code": 1})
